@@ -142,6 +142,38 @@ def _ints(a):
     return np.asarray(a).astype(np.int64).tolist()
 
 
+def _lategame_generator(maze, keep):
+    """A late-game start: every pellet is already collected (its row zeroed, as the game does) except the `keep`
+    pellets nearest to the player's start - so that the 'all pellets collected' end of an episode is reached."""
+    import jax.numpy as jnp
+
+    from jumanji.environments.routing.pac_man.generator import AsciiGenerator
+
+    R, C = len(maze), len(maze[0])
+    (pr, pc), = [(r, c) for r in range(R) for c in range(C) if maze[r][c] == "P"]
+    dist = {(pr, pc): 0}
+    dq = deque([(pr, pc)])
+    while dq:
+        q = dq.popleft()
+        for d in DIRS:
+            n = ((q[0] + d[0]) % R, (q[1] + d[1]) % C)
+            if maze[n[0]][n[1]] != "X" and n not in dist:
+                dist[n] = dist[q] + 1
+                dq.append(n)
+    near = sorted((d, rc) for rc, d in dist.items() if d >= 1)[:keep]
+    kept = {(rc[1], rc[0]) for _, rc in near}          # pellet rows are [column, row]
+
+    class LateGame(AsciiGenerator):
+        def __call__(self, key):
+            st = super().__call__(key)
+            locs = np.asarray(st.pellet_locations)
+            mask = np.array([(int(a), int(b)) in kept for a, b in locs])
+            return st.replace(pellet_locations=jnp.asarray(locs * mask[:, None], dtype=st.pellet_locations.dtype),
+                              pellets=jnp.array(int(mask.sum()), jnp.int32))
+
+    return LateGame(maze)
+
+
 def _c(cid, maze, tl, **kw):
     return dict(id=cid, ctor=dict(maze=maze, time_limit=tl), **kw)
 
@@ -159,7 +191,12 @@ class Adapter(EnvAdapter):
         from harness.envs.base import T_SWEEP_QUICK_FEW, T_SWEEP_THOROUGH_FEW
 
         ts = T_SWEEP_QUICK_FEW if tier == "quick" else T_SWEEP_THOROUGH_FEW
-        return self._base_configs(tier) + [_c(f"sealed_t{t}_sweep", "sealed", t, episodes=1, max_steps=t + 2, policies=["explore"],
+        q = tier == "quick"
+        # late-game starts (3 / 1 / 5 pellets left, near the player): the episode ends because every pellet is collected
+        late = [_c(f"{mz}_late{k}", mz, tl, lategame=k, episodes=(3 if q else 10), max_steps=k + 8, policies=["eat", "eat", "explore"],
+                   props=["C01", "C03", "C04", "C05", "C07", "C11", "C12"])
+                for mz, k, tl in (("sealed", 3, None), ("sealed", 1, 7), ("mini", 5, None))]
+        return self._base_configs(tier) + late + [_c(f"sealed_t{t}_sweep", "sealed", t, episodes=1, max_steps=t + 2, policies=["explore"],
                                               probe_every=0, props=["C03", "C11"]) for t in ts]
 
     def _base_configs(self, tier):
@@ -203,6 +240,8 @@ class Adapter(EnvAdapter):
             kw["time_limit"] = ct["time_limit"]
         if ct["maze"] != "default":
             kw["generator"] = AsciiGenerator(list(MAZES[ct["maze"]]))
+        if cfg.get("lategame"):
+            kw["generator"] = _lategame_generator(list(_ascii(ct["maze"])), cfg["lategame"])
         return PacMan(**kw)
 
     def cfg_record(self, cfg, env):
@@ -293,6 +332,22 @@ class Adapter(EnvAdapter):
             last = int(np.asarray(state.last_direction))
             fwd = [a for a in ok if last not in (0, 1, 2, 3) or a != (last + 2) % 4]
             return np.asarray(rng.choice(fwd or ok), dtype=dt)
+        if policy == "eat":          # shortest path to the nearest pellet that is left
+            grid, p, ok = self._moves(state)
+            locs = np.asarray(state.pellet_locations).reshape(-1, 2)
+            left = [(int(b), int(a)) for a, b in locs if not (a == 0 and b == 0)]
+            best = None
+            for g in left:
+                if g == p:
+                    continue
+                a = self._toward(grid, p, g)
+                if a is not None:
+                    d = abs(g[0] - p[0]) + abs(g[1] - p[1])
+                    if best is None or d < best[0]:
+                        best = (d, a)
+            if best is not None:
+                return np.asarray(best[1], dtype=dt)
+            return np.asarray(rng.choice(ok), dtype=dt) if ok else self.random_actions(env, rng, 1)[0]
         if policy == "dive":
             # head for the bottom corridor of the map (largest row index that has a free cell), then wander there
             grid, p, ok = self._moves(state)
